@@ -27,12 +27,13 @@ class _WorkDir:
 
 
 class _Producer:
-    def __init__(self, sim, is_repeat):
+    def __init__(self, sim, is_repeat, outputs=None, stage=0, name="Producer"):
         self.sim = sim
         self.isRepeat = is_repeat
-        self.stageIndex = 0
-        self.identification = "stage0.Producer"
-        self.reference = "stage0.Producer"
+        self.stageIndex = stage
+        self.outputs = sim.outputs if outputs is None else outputs
+        self.identification = "stage%d.%s" % (stage, name)
+        self.reference = self.identification
         self.workingDirectory = types.SimpleNamespace(path="/nonexistent/producer", directory="/nonexistent/producer")
         outer = self
 
@@ -42,15 +43,15 @@ class _Producer:
 
             @property
             def output(_self):
-                return ["out-%d" % i for i, t in enumerate(outer.sim.outputs) if t <= outer.sim.now_s()]
+                return ["out-%d" % i for i, t in enumerate(outer.outputs) if t <= outer.sim.now_s()]
 
             def outputSinceDate(_self, date):
                 d = outer.sim.to_s(date)
-                return ["out-%d" % i for i, t in enumerate(outer.sim.outputs) if d < t <= outer.sim.now_s()]
+                return ["out-%d" % i for i, t in enumerate(outer.outputs) if d < t <= outer.sim.now_s()]
 
             def outputBeforeDate(_self, date):
                 d = outer.sim.to_s(date)
-                return ["out-%d" % i for i, t in enumerate(outer.sim.outputs) if t <= d]
+                return ["out-%d" % i for i, t in enumerate(outer.outputs) if t <= d]
         self.workingDirectory = _WD()
 
 
@@ -81,6 +82,11 @@ class _Job:
         self.customAttributes = {}
         self.producerInstances = [_Producer(sim, case.get("producer_repeats", True))] if case.get("has_producer", True) \
             else []
+        p2 = case.get("p2")
+        if self.producerInstances and p2:
+            # a second producer: same stage (gates the first launch too) or an earlier stage (never gates)
+            second = _Producer(sim, p2["repeats"], outputs=sim.outputs2, stage=p2["stage"], name="Producer2")
+            self.producerInstances.insert(0 if p2["first"] else 1, second)
         self._interval = case["interval"]
 
     def repeatInterval(self):
@@ -164,6 +170,7 @@ class RepSim:
     def __init__(self, case, workdir):
         self.case = case
         self.outputs: List[float] = sorted(case.get("outputs", []))
+        self.outputs2: List[float] = sorted((case.get("p2") or {}).get("outputs", []))
         self.events = sorted([(case["notify_at"], 0, "notify")] if case.get("notify_at") is not None else [])
         if case.get("kill_at") is not None:
             self.events.append((case["kill_at"], 1, "kill"))
